@@ -517,8 +517,12 @@ var namePool = []string{"id", "name", "data", "a", "a ", "a!", "a\"", "ab", "a b
 	"\u540d\u524d", "x<y", "x>y", "a&b", "n\u2028", "tab\tn", "", "new", "old", "v", "t", "q", "first_name", "last_name",
 	"payload", "big", "A", "a\x7f", "emoji\U0001f600", "0", "1", "10", "2"}
 
-var typePool = []string{"integer", "text", "character varying", "timestamp without time zone", "jsonb", "boolean",
-	"\"public\".\"my type\"", "numeric", "bytea", "text[]", "\u00fcber<type>"}
+// test_decoding prints values of these types without quotes ...
+var plainTypes = []string{"integer", "bigint", "numeric", "boolean", "double precision", "smallint", "oid"}
+
+// ... and everything else between single quotes (parselogical: Quoted = true)
+var quotedTypes = []string{"text", "character varying", "timestamp without time zone", "jsonb", "bytea", "text[]",
+	"\"public\".\"my type\"", "\u00fcber<type>", "uuid"}
 
 var walSpecial = []uint64{0, 1, 15, 16, 255, 1<<32 - 1, 1 << 32, 1<<32 + 1, 1<<64 - 1, 1<<63 - 1, 1 << 63, 0xA0000000B,
 	0xABCDEF0123456789, 0x1510A58, 0xFFFFFFFF00000000, 0x00000001FFFFFFFF, 0x10000000, 0x0FFFFFFF}
@@ -553,21 +557,37 @@ func genTime(rng *rand.Rand) int64 {
 	return rng.Int63n(4200000000000) // 1970 .. 2103
 }
 
-func genCV(rng *rand.Rand, typ string, bad bool) *colv {
+// a column's type is a function of its name; whether values of the type are quoted is a function
+// of the type.  The only unquoted texts a quoted type can show are the two special words null and
+// unchanged-toast-datum.
+func typeOf(n string) (typ string, quoted bool) {
+	h := int(crc(n)) + len(n)*7
+	if h%5 < 2 {
+		return plainTypes[h%len(plainTypes)], false
+	}
+	return quotedTypes[h%len(quotedTypes)], true
+}
+
+var plainValues = []string{"0", "1", "-1", "42", "3.14", "1e+10", "NaN", "-Infinity", "t", "f", "9223372036854775807", "007"}
+
+func genCV(rng *rand.Rand, name string, bad bool) *colv {
+	typ, quoted := typeOf(name)
 	c := &colv{T: B(typ)}
 	switch r := rng.Intn(40); {
-	case r < 2:
-		c.V, c.Q = "null", false
 	case r < 3:
-		c.V, c.Q = "null", true
+		c.V, c.Q = "null", false // SQL NULL
 	case r < 5:
-		c.V, c.Q = toastMarker, false
-	case r < 6:
-		c.V, c.Q = toastMarker, true
-	case r < 14:
+		c.V, c.Q = toastMarker, false // unchanged TOAST datum
+	case !quoted && r < 20:
 		c.V, c.Q = B(strconv.Itoa(rng.Intn(1000))), false
+	case !quoted:
+		c.V, c.Q = B(pick(rng, plainValues)), false
+	case r < 7:
+		c.V, c.Q = "null", true // the string 'null'
+	case r < 9:
+		c.V, c.Q = toastMarker, true // the string 'unchanged-toast-datum'
 	default:
-		c.V, c.Q = B(genString(rng, bad)), rng.Intn(5) != 0
+		c.V, c.Q = B(genString(rng, bad)), true
 	}
 	return c
 }
@@ -615,26 +635,25 @@ func genMsg(rng *rand.Rand, bad bool, shape string, names []string) mmsg {
 	if rng.Intn(3) == 0 {
 		m.Txn = B(strconv.Itoa(500 + rng.Intn(50)))
 	}
-	typeOf := func(n string) string { return typePool[(len(n)*7+int(crc(n)))%len(typePool)] }
 	switch shape {
 	case "BEGIN", "COMMIT":
 		m.Op = B(shape)
 		m.Table = ""
 		m.Txn = B(strconv.Itoa(500 + rng.Intn(50)))
 		if rng.Intn(4) == 0 { // not produced by the parser, but must still not be marshalled
-			m.Cols = []mcol{{Name: "id", New: genCV(rng, "integer", bad)}}
+			m.Cols = []mcol{{Name: "id", New: genCV(rng, "id", bad)}}
 		}
 	case "INSERT":
 		m.Op = "INSERT"
 		for _, n := range names {
-			m.Cols = append(m.Cols, mcol{Name: B(n), New: genCV(rng, typeOf(n), bad)})
+			m.Cols = append(m.Cols, mcol{Name: B(n), New: genCV(rng, n, bad)})
 		}
 	case "DELETE":
 		m.Op = "DELETE"
 		for _, n := range names {
-			c := mcol{Name: B(n), New: genCV(rng, typeOf(n), bad)}
+			c := mcol{Name: B(n), New: genCV(rng, n, bad)}
 			if rng.Intn(5) == 0 {
-				c.Old = genCV(rng, typeOf(n), bad) // never produced by the parser for DELETE; must be ignored
+				c.Old = genCV(rng, n, bad) // never produced by the parser for DELETE; must be ignored
 			}
 			m.Cols = append(m.Cols, c)
 		}
@@ -643,24 +662,26 @@ func genMsg(rng *rand.Rand, bad bool, shape string, names []string) mmsg {
 	case "ODD":
 		m.Op = B([]string{"delete", "", "UPSERT", "Delete", "DELETE ", "begin", "COMMIT;", genString(rng, bad)}[rng.Intn(8)])
 		for _, n := range names {
-			m.Cols = append(m.Cols, mcol{Name: B(n), New: genCV(rng, typeOf(n), bad)})
+			m.Cols = append(m.Cols, mcol{Name: B(n), New: genCV(rng, n, bad)})
 		}
 	default: // UPDATE-full, UPDATE-key, UPDATE-plain, UPDATE-toast
 		m.Op = "UPDATE"
 		for i, n := range names {
-			c := mcol{Name: B(n), New: genCV(rng, typeOf(n), bad)}
+			c := mcol{Name: B(n), New: genCV(rng, n, bad)}
 			withOld := shape == "UPDATE-full" || shape == "UPDATE-toast" || (shape == "UPDATE-key" && i == 0)
 			if withOld {
 				switch r := rng.Intn(10); {
 				case r < 4: // unchanged
 					o := *c.New
 					c.Old = &o
-				case r < 5: // same text, other quoting
+				case r < 5: // NULL <-> 'null', marker <-> 'unchanged-toast-datum' (only for quoted types)
 					o := *c.New
-					o.Q = !o.Q
+					if _, qt := typeOf(n); qt && (string(o.V) == "null" || string(o.V) == toastMarker) {
+						o.Q = !o.Q
+					}
 					c.Old = &o
 				default:
-					c.Old = genCV(rng, typeOf(n), bad)
+					c.Old = genCV(rng, n, bad)
 				}
 				if shape == "UPDATE-toast" && rng.Intn(2) == 0 {
 					c.New = &colv{V: toastMarker, T: c.Old.T, Q: false}
@@ -669,7 +690,7 @@ func genMsg(rng *rand.Rand, bad bool, shape string, names []string) mmsg {
 			m.Cols = append(m.Cols, c)
 		}
 		if shape == "UPDATE-key" && rng.Intn(3) == 0 { // an old column that is not among the new ones
-			m.Cols = append(m.Cols, mcol{Name: "gone", Old: genCV(rng, "integer", bad)})
+			m.Cols = append(m.Cols, mcol{Name: "gone", Old: genCV(rng, "id", bad)})
 		}
 	}
 	return m
